@@ -596,7 +596,13 @@ func c13RunCli(sc *c13Scn, keep bool) (out core.Outcome) {
 		return out
 	}
 	res := c13CliExec(cli, src)
-	log.Addf("status=%d signal=%q stdout=%s stderr_tokens=%s files=%s", res.Status, res.Signal, c13Short(res.Stdout), c13Short(c13CliTokens(res.Stderr)), c13CliFiles(res.Files))
+	if cli.Stdout == "devfull" || cli.Stdout == "closedpipe" {
+		// whether the process is ended by the failed write itself or by a SIGPIPE is the kernel's
+		// business: the event log records only what the oracles look at
+		log.Addf("failing stdout: succeeded=%v", res.Status == 0 && res.Signal == "")
+	} else {
+		log.Addf("status=%d signal=%q stdout=%s stderr_tokens=%s files=%s", res.Status, res.Signal, c13Short(res.Stdout), c13Short(c13CliTokens(res.Stderr)), c13CliFiles(res.Files))
+	}
 	out.One(log.Hash(), true)
 	out.Probe("cli_runs", 1)
 	out.Probe("cli_stdout:"+cli.Stdout, 1)
